@@ -35,4 +35,5 @@ fn main() {
     println!("cargo:rerun-if-changed={}/main.rs", repo);
     println!("cargo:rerun-if-changed={}", repo);
     println!("cargo:rerun-if-changed=build.rs");
+    println!("cargo:rerun-if-env-changed=VERIF_REPO_SRC");
 }
